@@ -27,9 +27,9 @@ def run(ctx):
     # anchors (cheap subset in quick: shares / recoveries / genmid; the irreducibility of all keys in thorough)
     if not ctx.quick:
         r = vlib.tlc("BelsVectors", timeout=2400, extra=["-continue"], quiet=True)
-        failed = re.findall(r'name = "(\w+)"\s*\n/\\ ok = FALSE', r.out)
+        failed = vlib.failed_vectors(r.out)
         ev.cov["appendix_vectors_evaluated"] = max(0, (r.distinct - 1) // 2)
-        if r.rc != 0 or failed:
+        if r.rc not in (0, 12) or failed or r.distinct < 3:
             ctx.note_inconclusive("Bels reference semantics fails its vectors %s (specification error)" % failed)
             return
     drv = vlib.harness("drv_bels", ["drv_bels.c"], "asan")
